@@ -2,11 +2,11 @@ package eng
 
 import (
 	"fmt"
-	"reflect"
 	"github.com/cloudflare/ahocorasick"
 	"go/constant"
 	"go/token"
 	"go/types"
+	"reflect"
 	"strings"
 
 	"golang.org/x/tools/go/ssa"
@@ -16,26 +16,26 @@ import (
 
 // ----- path termination signals (Go panics caught by the explorer) -----
 
-type pathEnd struct{ reason string }       // silent end (assume infeasible etc.)
-type inconclusive struct{ reason string }  // unsupported / unknown: makes the whole run inconclusive
-type goPanic struct {                      // a Go-level panic in interpreted code
+type pathEnd struct{ reason string }      // silent end (assume infeasible etc.)
+type inconclusive struct{ reason string } // unsupported / unknown: makes the whole run inconclusive
+type goPanic struct {                     // a Go-level panic in interpreted code
 	val Value
 	msg string
 	pos token.Pos
 }
 
 type frame struct {
-	fn     *ssa.Function
-	env    []Value
-	locals map[ssa.Value]Value
-	defers []func()
-	block  *ssa.BasicBlock
-	prev   *ssa.BasicBlock
-	result Value
+	fn        *ssa.Function
+	env       []Value
+	locals    map[ssa.Value]Value
+	defers    []func()
+	block     *ssa.BasicBlock
+	prev      *ssa.BasicBlock
+	result    Value
 	panicking *goPanic
-	visits map[int]int
-	phiOv  map[*ssa.Phi]Value
-	phiOvFor *ssa.BasicBlock
+	visits    map[int]int
+	phiOv     map[*ssa.Phi]Value
+	phiOvFor  *ssa.BasicBlock
 }
 
 // Interp is a per-worker interpreter; per-path state is reset by beginPath.
@@ -46,53 +46,53 @@ type Interp struct {
 	Sol *sym.Solver
 
 	// per path
-	trace    []int
-	tpos     int
-	taken    []int
-	forced   []bool
-	pc       []*sym.Term
-	globals  map[*ssa.Global]*Cell
-	cellSeq  int
-	mapSeq   int
-	steps    int
-	obligs   []*sym.Term
-	obligPos []string
-	inputs   []*Input
-	inputIdx map[string]*Input
-	observed []Observation
-	knownKey string
-	unknownFeas int
-	fresh    int
-	depth    int
-	builders map[*Cell]*Str
-	onces    map[string]bool
-	hostObjs map[string]Value
-	funcsSeen map[*ssa.Function]bool
-	asserts  int
-	stubs    map[string]bool
-	env      map[string]interface{} // per-path scratch for intrinsics
-	curPos   token.Pos
+	trace        []int
+	tpos         int
+	taken        []int
+	forced       []bool
+	pc           []*sym.Term
+	globals      map[*ssa.Global]*Cell
+	cellSeq      int
+	mapSeq       int
+	steps        int
+	obligs       []*sym.Term
+	obligPos     []string
+	inputs       []*Input
+	inputIdx     map[string]*Input
+	observed     []Observation
+	knownKey     string
+	unknownFeas  int
+	fresh        int
+	depth        int
+	builders     map[*Cell]*Str
+	onces        map[string]bool
+	hostObjs     map[string]Value
+	funcsSeen    map[*ssa.Function]bool
+	asserts      int
+	stubs        map[string]bool
+	env          map[string]interface{} // per-path scratch for intrinsics
+	curPos       token.Pos
 	globalWrites []string
-	inOnce   int
-	inInit   bool
-	tmpl     *globalTemplate
-	cross    *sym.Solver
-	fallback *sym.Solver
-	panicFrames []*frame
-	astBack  map[*Cell]reflect.Value
-	astFwd   map[uintptr]*Ptr
-	reached  []string
-	byteAssumed map[int]bool
-	spec bool
-	specGuard *sym.Term
-	fnInfos map[*ssa.Function]*fnInfo
-	astTypes map[reflect.Type]*types.Struct
-	l1 *l1Prog
-	syncMaps map[string]*MapV
-	syncPools map[string][]Value
-	curFn *ssa.Function
-	posOverride map[*token.FileSet]posAnswer
-	matchers map[*ahocorasick.Matcher][]string
+	inOnce       int
+	inInit       bool
+	tmpl         *globalTemplate
+	cross        *sym.Solver
+	fallback     *sym.Solver
+	panicFrames  []*frame
+	astBack      map[*Cell]reflect.Value
+	astFwd       map[uintptr]*Ptr
+	reached      []string
+	byteAssumed  map[int]bool
+	spec         bool
+	specGuard    *sym.Term
+	fnInfos      map[*ssa.Function]*fnInfo
+	astTypes     map[reflect.Type]*types.Struct
+	l1           *l1Prog
+	syncMaps     map[string]*MapV
+	syncPools    map[string][]Value
+	curFn        *ssa.Function
+	posOverride  map[*token.FileSet]posAnswer
+	matchers     map[*ahocorasick.Matcher][]string
 }
 
 func (in *Interp) fail(format string, args ...interface{}) {
@@ -111,6 +111,9 @@ func (in *Interp) newCell(v Value, tag string) *Cell {
 
 // choose picks one of mutually exclusive, jointly exhaustive (under pc) alternatives.
 func (in *Interp) choose(conds []*sym.Term, what string) int {
+	if in.Ex != nil && in.Ex.OverBudget() {
+		in.fail("wall-clock budget of the run used up inside a path")
+	}
 	// constant resolution
 	nonFalse := -1
 	cnt := 0
